@@ -24,7 +24,11 @@ MANIFEST = {
             "body the driver builds from a recorded call (Lemmas/C05Driver: progOf_ok, driver_call_history_independent; "
             "Bridge: code_driver_call_history_independent for the generated tables). The premises are decided by `decide` on "
             "tables generated from the current source: RNG-access table by a closed-world AST walk over all 14 generators' "
-            "mask_func and everything reachable from it (methods through the class hierarchy, module functions, nested "
+            "mask_func and everything reachable from it (temp_seed is recognised semantically: an object whose enter saves the state "
+            "of X and seeds it with s and whose exit restores it on every path - generator form, class with __enter__/__exit__, "
+            "factory of such a class, positional or keyword call sites; unreadable -> skipped, never a mismatch; the recorder "
+            "detects scopes at run time the same way: get_state then seed by one function = enter, set_state of the saved "
+            "object = exit; methods through the class hierarchy, module functions, nested "
             "functions, functions of other direct.* modules such as T.center_crop; `@contextmanager` helpers of the class / module "
             "that delegate to temp_seed, e.g. `with self._seeded_rng(seed):`, open the scope like temp_seed itself, and a stream "
             "handed to a helper as an argument stays that stream inside it; methods named like random-number entry "
